@@ -43,6 +43,13 @@ fn run_query_entry<Q: MakeCustomQuery>(storage: &dyn Storage, querier: &QuerierW
         let recs: Vec<_> = storage.range(None, None, Order::Ascending).collect();
         s.push_str("|scan:");
         s.push_str(&fmt_range(&recs));
+        // the keys-only and values-only iterations (what Map::keys and friends use), in the other order
+        let keys: Vec<Vec<u8>> = storage.range_keys(None, None, Order::Descending).collect();
+        let vals: Vec<Vec<u8>> = storage.range_values(None, None, Order::Descending).collect();
+        s.push_str("|keys:");
+        s.push_str(&keys.iter().map(|k| hex(k)).collect::<Vec<_>>().join(","));
+        s.push_str("|vals:");
+        s.push_str(&vals.iter().map(|k| hex(k)).collect::<Vec<_>>().join(","));
     }
     if let Some(next) = q.chain.first() {
         let rest = SmartQ { keys: q.keys.clone(), scan: q.scan, chain: q.chain[1..].to_vec() };
